@@ -157,6 +157,10 @@ func (c *channel) enqueue(req request, responseChan chan<- response, streaming b
 		vEmit("ClosedReply", c.node.ID(), req.msg.Metadata.MessageID)
 		c.routeResponse(req.msg.Metadata.MessageID, response{nid: c.node.ID(), err: fmt.Errorf("channel closed")})
 		return
+	case <-req.ctx.Done():
+		// the caller's context ended before the sender could take the request
+		c.routeResponse(req.msg.Metadata.MessageID, response{nid: c.node.ID(), err: req.ctx.Err()})
+		return
 	case c.sendQ <- req:
 		vEmit("HandOff", c.node.ID(), req.msg.Metadata.MessageID)
 	}
